@@ -240,7 +240,14 @@ class FnEmitter:
             out += self.tree(t[2], dict(bound), ind + 1)
             out.append(sp + "end")
         else:
-            out.append(sp + f"let '{pat} := {callee_txt} in")
+            # (added by the tensors glue tie, additive) `let 'c := t in b` with a VARIABLE pattern is substituted
+            # away when Coq elaborates the definition (every use of c becomes a copy of t).  A translation that sets
+            # `plain_let_calls` gets a genuine `let c := t in b` for single-name results, so that the shared
+            # structure survives in the kernel term; tuple results keep the destructuring form.
+            if getattr(self, "plain_let_calls", False) and pat.isidentifier():
+                out.append(sp + f"let {pat} := {callee_txt} in")
+            else:
+                out.append(sp + f"let '{pat} := {callee_txt} in")
             out += self.tree(t[2], dict(bound), ind)
         return out
 
@@ -367,6 +374,8 @@ def emit_module(tr, src, sha):
     if getattr(tr, "header_extra", None):
         parts.append(tr.header_extra)
     for cname in tr.order:
-        parts.append(FnEmitter(tr.defs[cname]).emit())
+        fe = FnEmitter(tr.defs[cname])
+        fe.plain_let_calls = bool(getattr(tr, "plain_let_calls", False))
+        parts.append(fe.emit())
         parts.append("")
     return "\n".join(parts)
